@@ -14,7 +14,8 @@ def run(ctx):
     t0 = time.time()
     V = vlib.Verdict(PID)
     wd = vlib.scratch("c11-%s" % ctx.tier)
-    stats, bad = ac.run_asm(ctx, ["reasm", "tcpasm"], wd, 300 if ctx.tier == "quick" else 5000)
+    stats, bad = ac.run_asm(ctx, ["reasm", "tcpasm"], wd, 300 if ctx.tier == "quick" else 5000,
+                            variants={"reasm": 1, "tcpasm": 1} if ctx.tier == "quick" else None)
     ac.judge(V, bad, ac.LIFECYCLE, ["reasm", "tcpasm"])
     rc = V.finish()
     ac.evidence(PID, ctx, V, stats, t0, ["reassembly", "tcpassembly"], "Lifecycle clauses are evaluated on every api/new/complete/flush event.")
